@@ -240,6 +240,12 @@ func writeListOrArray(e *Encoder, d *decodeState, ifWriteTag bool, tagName strin
 				panic(phasePanicMsg)
 			}
 			d.scanWhile(scanSkipSpace)
+			if d.opcode == scanError {
+				return tagType, d.error(d.scan.errContext)
+			}
+			if d.opcode != scanBeginLiteral { // a '{' or '[' among literals
+				return TagList, d.error("different TagType in List")
+			}
 			start = d.readIndex()
 			if d.scanWhile(scanContinue); d.opcode == scanError {
 				return tagType, d.error(d.scan.errContext)
